@@ -219,7 +219,9 @@ def fn_apply(name, arg):
 class VN:
     """normaliser for expressions inside one function; sequential environment of locals"""
 
-    def __init__(self, prog=None, func=None, env=None, attr_self=True, selfname="self", strip_broadcast=False, flags=None):
+    def __init__(self, prog=None, func=None, env=None, attr_self=True, selfname="self", strip_broadcast=False, flags=None, inline=0, skip=None):
+        self.skip = skip                         # predicate on statements that are to be ignored (tolerated idioms of the calling rule), also inside inlined helpers
+        self.inline = inline                     # > 0: calls of straight-line helpers of the package are evaluated in place (to that depth) instead of being opaque atoms
         self.prog, self.func = prog, func
         self.env = dict(env or {})
         self.selfname = selfname
@@ -236,6 +238,8 @@ class VN:
         return None
 
     def stmt(self, st):
+        if self.skip is not None and self.skip(st):
+            return None
         if isinstance(st, ast.Assign):
             v = self.expr(st.value)
             for t in st.targets:
@@ -267,6 +271,8 @@ class VN:
             return None
         if isinstance(st, ast.If) and isinstance(st.test, ast.Name) and st.test.id in self.flags:
             return self.run(st.body if self.flags[st.test.id] else st.orelse)
+        if self.inline and isinstance(st, ast.If) and not st.orelse and st.body and all(isinstance(b, ast.Raise) for b in st.body):
+            return None      # a guard whose only effect is to raise: not a normal exit
         raise VNUnknown("statement %s not straight-line" % type(st).__name__)
 
     def bind(self, t, v, st):
@@ -420,9 +426,41 @@ class VN:
         cr, pr = r.split_const()
         return Poly.atom(("dot", pl.key(), pr.key())).scale(cl * cr)
 
+    def _inline_call(self, e):
+        """value of a call to a straight-line helper of the package (own method / module function), or None"""
+        if not self.inline or self.prog is None or self.func is None:
+            return None
+        ba, callee = self.prog.bound_args(self.func, e)
+        if ba is None or callee is None or callee.node.args.vararg is not None:
+            return None
+        from .model import body_nodoc
+        body = body_nodoc(callee.node)
+        if len(body) == 1 and isinstance(body[0], ast.Raise):
+            return None
+        env = {k: v for k, v in self.env.items() if k.startswith("self.")}
+        try:
+            for p_, a_ in ba.items():
+                env[p_] = self.expr(a_)
+            # defaults of parameters that were not supplied
+            args = callee.node.args
+            names = [a.arg for a in args.args]
+            for nm, d in zip(names[len(names) - len(args.defaults):], args.defaults):
+                if nm not in env:
+                    env[nm] = self.expr(d)
+            sub = VN(self.prog, callee, env, selfname=self.selfname, strip_broadcast=self.strip_broadcast, flags=self.flags, inline=self.inline - 1, skip=self.skip)
+            r = sub.run(body)
+        except VNUnknown:
+            return None
+        if r is None or isinstance(r, list):
+            return None
+        return r
+
     def call(self, e):
         fn = e.func
         kws, stars = kwargs_of(e)
+        r_inl = self._inline_call(e)
+        if r_inl is not None:
+            return r_inl
         d = self.dotted(fn)
         if d is not None and d.startswith("numpy."):
             name = d.split(".", 1)[1]
